@@ -19,7 +19,10 @@ Inductive case :=
       (Tr : res (list node)) (cl : nat * nat) (bins : list (list bool))    (*   result; clog2(m), clog2(m+1); int_to_bin(k, clog2 m, True) for k = 0..m *)
       (Sn : res nat)                                                      (*   props.sensitivity(c, n) *)
 | CInf (C : Circuit) (n : string) (sp : list string)                      (* props.influence / avg_sensitivity (approx=False) *)
-      (Ir : res (list (string * Q))) (Ar : res Q).
+      (Ir : res (list (string * Q))) (Ar : res Q)
+| CSens (C : Circuit) (n : string) (sp : list string) (Sn : res nat)      (* props.sensitivity alone (repeated-call batches) *)
+| CBatch (l : list case).                                                 (* several calls on ONE circuit object: multi-node `ns`
+                                                                             (one CInf per node of the returned dict), repeated calls *)
 
 (* ---- brute-force stand-ins for the SAT solver / model counter (sound and complete by enumeration) ---- *)
 Definition sims (nodes : list node) (free : list string) : list val := simulate nodes <$> all_vals free.
@@ -42,7 +45,7 @@ Definition same_infl (a b : res (list (string * Q))) : bool :=
   | Raise e, Raise e' => bool_decide (e = e')
   | _, _ => false end.
 
-Definition agree (k : case) : bool :=
+Fixpoint agree (k : case) : bool :=
   match k with
   | CMutated _ => false
   | CSz C n Eo Tr Sz =>
@@ -98,6 +101,8 @@ Definition agree (k : case) : bool :=
   | CInf C n sp Ir Ar =>
       let Im := influence mc_bf C n in
       same_infl Ir Im && qeq_res Ar (rmap (λ l, qsum (snd <$> l)) Im)
+  | CSens _ _ _ _ => true            (* judged by `holds` only; the model of sensitivity is tied by the CSv cases *)
+  | CBatch l => forallb agree l
   end.
 
 (* ---- the property ---- *)
@@ -105,7 +110,7 @@ Definition sen_out_width (nodes : list node) : nat :=
   length (filter (λ p : node, String.prefix "sen_out_" p.1.1.1 = true) nodes).
 
 Definition wf_orig (c : circuit) : bool := closedb c && acyclicb c.
-Definition holds (k : case) : bool :=
+Fixpoint holds (k : case) : bool :=
   match k with
   | CMutated _ => false
   | CSz C n Eo Tr Sz =>
@@ -164,4 +169,13 @@ Definition holds (k : case) : bool :=
           Qeq_bool a (avg_sensitivity_def c n sp)
       | _, _ => false
       end
+  | CSens C n sp Sn =>
+      let c := c_g C in
+      wf_orig c && bool_decide (sp ≡ₚ elements (cone_startpoints c n)) &&
+      match sp, Sn with
+      | [], _ => true
+      | _, Ok k => k =? sensitivity_def c n sp
+      | _, _ => false
+      end
+  | CBatch l => forallb holds l
   end.
